@@ -265,12 +265,26 @@ def write_error_code(buffer: Writable, error_code: ErrorCode) -> None:
     write_int16(buffer, error_code.value)
 
 
+_one_millisecond: Final = datetime.timedelta(milliseconds=1)
+
+
+def _timedelta_to_milliseconds(value: datetime.timedelta) -> int:
+    # Integer arithmetic, to stay exact beyond the 53 bits of precision of a float.
+    # Rounds half to even, like round().
+    quotient, remainder = divmod(value, _one_millisecond)
+    if remainder * 2 > _one_millisecond or (
+        remainder * 2 == _one_millisecond and quotient % 2
+    ):
+        quotient += 1
+    return quotient
+
+
 def write_timedelta_i32(buffer: Writable, value: i32Timedelta) -> None:
-    write_int32(buffer, round(value.total_seconds() * 1000))  # type: ignore[arg-type]
+    write_int32(buffer, _timedelta_to_milliseconds(value))  # type: ignore[arg-type]
 
 
 def write_timedelta_i64(buffer: Writable, value: i64Timedelta) -> None:
-    write_int64(buffer, round(value.total_seconds() * 1000))  # type: ignore[arg-type]
+    write_int64(buffer, _timedelta_to_milliseconds(value))  # type: ignore[arg-type]
 
 
 def write_datetime_i64(buffer: Writable, value: datetime.datetime) -> None:
